@@ -209,7 +209,8 @@ def make_mean(name, d, rng, bs=()):
         return gpytorch.means.ZeroMean(batch_shape=B)
     if name == "constant":
         m = gpytorch.means.ConstantMean(batch_shape=B)
-        m.constant.data = torch.tensor([_dy(rng, -2, 2) for _ in range(max(1, B.numel()))]).reshape(B)
+        # never exactly 0: positive-support priors are placed on constant**2 (log density undefined at 0)
+        m.constant.data = torch.tensor([_dy(rng, 1 / 64, 2) * rng.choice([-1, 1]) for _ in range(max(1, B.numel()))]).reshape(B)
         return m
     m = gpytorch.means.LinearMean(d, batch_shape=B)
     m.weights.data = torch.tensor([_dy(rng, -1, 1) for _ in range(max(1, B.numel()) * d)]).reshape(*B, d, 1)
